@@ -5,6 +5,8 @@ cd "$(dirname "$0")/.." || exit 2
 A=${1:-1}; B=${2:-300}; TIER=${3:-quick}
 H=work/target/debug/mila-harness
 mkdir -p work/gensoak
+# the binary may have been left built against a patched /repo by checks/seeded.py: rebuild from the current tree
+(cd harness && cargo build -q 2>/dev/null) || { echo "gensoak: harness build failed"; exit 2; }
 bad=0; n=0
 for spec in loc:C14 binops:C03 binops:C04 binser:C01 binser:C02 parsers:C05 text:C06 text:C07 lz:C08 lz:C09 lz:C10 lz:C11 fs:C12 fs:C13 fs:C14 pack:C15 arc:C16 aset:C17 asset:C18 pixel:C19 texc:C19 texc:C20; do
   fam=${spec%%:*}; prop=${spec##*:}
